@@ -358,6 +358,8 @@ def reuse_histories(T, O, b, r, res, count, dist):
     for _ in range(count):
         ah = r.choice(ADD_HEADS)
         inst = {m: O(merge_ranges=m, add_head=ah) for m in (False, True)}
+        # a third instance whose public setting is switched between the calls (built with the opposite value)
+        toggled = O(merge_ranges=True, add_head=ah)
         history = []
         tree = None
         for _step in range(r.randrange(2, 7)):
@@ -395,6 +397,16 @@ def reuse_histories(T, O, b, r, res, count, dist):
                     O.WILDCARD_WORD = T.Word("*")     # repair so that later cases are judged on their own
                 if lib.g_item(tree) != before:
                     res.failures.append((dict(payload, merge=m, why="the input tree was modified"), None))
+            for m in (False, True, False):
+                try:
+                    toggled.merge_ranges = m
+                    out = toggled(tree)
+                    if m in outs and lib.g_item(out) != lib.g_item(outs[m]):
+                        res.failures.append((dict(payload, merge=m, toggled=str(out)[:300], fresh=str(outs[m])[:300],
+                                                  why="an instance whose merge_ranges attribute was set to %r after "
+                                                      "construction does not behave like one built with it" % m), None))
+                except Exception as e:
+                    res.failures.append((dict(payload, merge=m, why="exception %r on a toggled instance" % e), None))
             if len(outs) == 2:
                 why = oracle(T, tree, outs[False], outs[True], ah)
                 if why:
